@@ -14,7 +14,7 @@ META = {
             'change it, on every path, loop-agnostic); store lists only mutated by their owner; edges delegate once and pass the validated '
             'capacity; no failure exit after a reservation is consumed. Holds for every history because the obligations are per statement, not per run.',
             'DESIGN.md §4 C01'),
-    'C02': ('other', 'ast path summaries: symbolic object flow (multiset neutrality), binder/cancel index algebra, lock-step length deltas, closed mutator vocabulary of the holding/binding lists',
+    'C02': ('other', 'ast path summaries: symbolic object flow (multiset neutrality), binder/cancel index algebra, lock-step length deltas, closed mutator vocabulary of the holding/binding lists, no failure exit after an item was removed',
             'Necessary structural conditions of item conservation and distinct binding at store level (multiset neutrality of every entry point, '
             'wrap/unwrap agreement, binding discipline preserved by every mutator, lock-step of the binding lists). Decides those clauses, not the whole behaviour.',
             'DESIGN.md §4 C02'),
